@@ -52,6 +52,8 @@ class EventQueueBase <
 	>
 {
 private:
+	EVENTPP_VERIF_FRIEND
+
 	using super = EventDispatcherBase<
 		EventType_,
 		ReturnType (Args...),
@@ -109,6 +111,7 @@ public:
 		~DisableQueueNotify()
 		{
 			--queue->queueNotifyCounter;
+			EVENTPP_VERIF_POINT("q.dqn.after-dec");
 
 			if(queue->doCanNotifyQueueAvailable() && ! queue->emptyQueue()) {
 				queue->queueListConditionVariable.notify_one();
@@ -190,16 +193,20 @@ public:
 
 	bool emptyQueue() const
 	{
+		EVENTPP_VERIF_RACY_READ_SCOPE();
 		return queueList.empty() && (queueEmptyCounter.load(std::memory_order_acquire) == 0);
 	}
 	
 	void clearEvents()
 	{
+		EVENTPP_VERIF_RACY_READ_BEGIN();
 		if(! queueList.empty()) {
+			EVENTPP_VERIF_RACY_READ_END();
 			BufferedItemList tempList;
 
 			{
 				std::lock_guard<Mutex> queueListLock(queueListMutex);
+				EVENTPP_VERIF_POINT("q.queueList.cs");
 				std::swap(queueList, tempList);
 			}
 
@@ -209,14 +216,18 @@ public:
 				}
 
 				std::lock_guard<Mutex> queueListLock(freeListMutex);
+				EVENTPP_VERIF_POINT("q.freeList.cs");
 				freeList.splice(freeList.end(), tempList);
 			}
 		}
+		EVENTPP_VERIF_RACY_READ_END();
 	}
 
 	bool process()
 	{
+		EVENTPP_VERIF_RACY_READ_BEGIN();
 		if(! queueList.empty()) {
+			EVENTPP_VERIF_RACY_READ_END();
 			BufferedItemList tempList;
 
 			// Use a counter to tell the queue list is not empty during processing
@@ -225,6 +236,7 @@ public:
 
 			{
 				std::lock_guard<Mutex> queueListLock(queueListMutex);
+				EVENTPP_VERIF_POINT("q.queueList.cs");
 				std::swap(queueList, tempList);
 			}
 
@@ -238,18 +250,22 @@ public:
 				}
 
 				std::lock_guard<Mutex> queueListLock(freeListMutex);
+				EVENTPP_VERIF_POINT("q.freeList.cs");
 				freeList.splice(freeList.end(), tempList);
 				
 				return true;
 			}
 		}
+		EVENTPP_VERIF_RACY_READ_END();
 		
 		return false;
 	}
 
 	bool processOne()
 	{
+		EVENTPP_VERIF_RACY_READ_BEGIN();
 		if(! queueList.empty()) {
+			EVENTPP_VERIF_RACY_READ_END();
 			BufferedItemList tempList;
 
 			// Use a counter to tell the queue list is not empty during processing
@@ -258,6 +274,7 @@ public:
 
 			{
 				std::lock_guard<Mutex> queueListLock(queueListMutex);
+				EVENTPP_VERIF_POINT("q.queueList.cs");
 				if(! queueList.empty()) {
 					tempList.splice(tempList.end(), queueList, queueList.begin());
 				}
@@ -272,11 +289,13 @@ public:
 				item.clear();
 
 				std::lock_guard<Mutex> queueListLock(freeListMutex);
+				EVENTPP_VERIF_POINT("q.freeList.cs");
 				freeList.splice(freeList.end(), tempList);
 				
 				return true;
 			}
 		}
+		EVENTPP_VERIF_RACY_READ_END();
 		
 		return false;
 	}
@@ -284,7 +303,9 @@ public:
 	template <typename Predictor>
 	bool processIf(Predictor && predictor)
 	{
+		EVENTPP_VERIF_RACY_READ_BEGIN();
 		if(! queueList.empty()) {
+			EVENTPP_VERIF_RACY_READ_END();
 			BufferedItemList tempList;
 			BufferedItemList idleList;
 
@@ -294,6 +315,7 @@ public:
 
 			{
 				std::lock_guard<Mutex> queueListLock(queueListMutex);
+				EVENTPP_VERIF_POINT("q.queueList.cs");
 				std::swap(queueList, tempList);
 			}
 
@@ -321,17 +343,20 @@ public:
 
 				if (! tempList.empty()) {
 					std::lock_guard<Mutex> queueListLock(queueListMutex);
+					EVENTPP_VERIF_POINT("q.queueList.cs");
 					queueList.splice(queueList.begin(), tempList);
 				}
 
 				if(! idleList.empty()) {
 					std::lock_guard<Mutex> queueListLock(freeListMutex);
+					EVENTPP_VERIF_POINT("q.freeList.cs");
 					freeList.splice(freeList.end(), idleList);
 					
 					return true;
 				}
 			}
 		}
+		EVENTPP_VERIF_RACY_READ_END();
 		
 		return false;
 	}
@@ -339,7 +364,9 @@ public:
 	template <typename Predictor>
 	bool processUntil(Predictor && predictor)
 	{
+		EVENTPP_VERIF_RACY_READ_BEGIN();
 		if(! queueList.empty()) {
+			EVENTPP_VERIF_RACY_READ_END();
 			BufferedItemList tempList;
 			BufferedItemList idleList;
 
@@ -349,6 +376,7 @@ public:
 
 			{
 				std::lock_guard<Mutex> queueListLock(queueListMutex);
+				EVENTPP_VERIF_POINT("q.queueList.cs");
 				std::swap(queueList, tempList);
 			}
 
@@ -376,17 +404,20 @@ public:
 
 				if (! tempList.empty()) {
 					std::lock_guard<Mutex> queueListLock(queueListMutex);
+					EVENTPP_VERIF_POINT("q.queueList.cs");
 					queueList.splice(queueList.begin(), tempList);
 				}
 
 				if(! idleList.empty()) {
 					std::lock_guard<Mutex> queueListLock(freeListMutex);
+					EVENTPP_VERIF_POINT("q.freeList.cs");
 					freeList.splice(freeList.end(), idleList);
 					
 					return true;
 				}
 			}
 		}
+		EVENTPP_VERIF_RACY_READ_END();
 		
 		return false;
 	}
@@ -422,25 +453,32 @@ public:
 
 	bool peekEvent(QueuedEvent * queuedEvent)
 	{
+		EVENTPP_VERIF_RACY_READ_BEGIN();
 		if(! queueList.empty()) {
+			EVENTPP_VERIF_RACY_READ_END();
 			std::lock_guard<Mutex> queueListLock(queueListMutex);
+			EVENTPP_VERIF_POINT("q.queueList.cs");
 			
 			if(! queueList.empty()) {
 				*queuedEvent = queueList.front().get();
 				return true;
 			}
 		}
+		EVENTPP_VERIF_RACY_READ_END();
 
 		return false;
 	}
 
 	bool takeEvent(QueuedEvent * queuedEvent)
 	{
+		EVENTPP_VERIF_RACY_READ_BEGIN();
 		if(! queueList.empty()) {
+			EVENTPP_VERIF_RACY_READ_END();
 			BufferedItemList tempList;
 
 			{
 				std::lock_guard<Mutex> queueListLock(queueListMutex);
+				EVENTPP_VERIF_POINT("q.queueList.cs");
 
 				if(! queueList.empty()) {
 					tempList.splice(tempList.end(), queueList, queueList.begin());
@@ -452,11 +490,13 @@ public:
 				tempList.front().clear();
 
 				std::lock_guard<Mutex> queueListLock(freeListMutex);
+				EVENTPP_VERIF_POINT("q.freeList.cs");
 				freeList.splice(freeList.end(), tempList);
 
 				return true;
 			}
 		}
+		EVENTPP_VERIF_RACY_READ_END();
 
 		return false;
 	}
@@ -501,14 +541,19 @@ protected:
 	void doEnqueue(QueuedEvent && item)
 	{
 		BufferedItemList tempList;
+		EVENTPP_VERIF_RACY_READ_BEGIN();
 		if(! freeList.empty()) {
+			EVENTPP_VERIF_RACY_READ_END();
 			{
 				std::lock_guard<Mutex> queueListLock(freeListMutex);
+				EVENTPP_VERIF_POINT("q.freeList.cs");
 				if(! freeList.empty()) {
 					tempList.splice(tempList.end(), freeList, freeList.begin());
 				}
 			}
 		}
+
+		EVENTPP_VERIF_RACY_READ_END();
 
 		if(tempList.empty()) {
 			tempList.emplace_back();
@@ -518,6 +563,7 @@ protected:
 		it->set(std::move(item));
 
 		std::lock_guard<Mutex> queueListLock(queueListMutex);
+		EVENTPP_VERIF_POINT("q.queueList.cs");
 		queueList.splice(queueList.end(), tempList, it);
 	}
 
